@@ -81,6 +81,9 @@ def cases(tier, seed):
         cs.append({'kind': 'repo-model', 'model': name, 'fold': i % 2 == 1,
                    'mask_mode': ['binary', 'adversarial', 'normal'][i % 3],
                    'seed': seed * 31 + i})
+    # the repository's own PIT tests under the in-situ _time_mask contract
+    from vf import suitewl
+    cs += suitewl.cases(tier, select=('test_pit/',), slow_in_quick=('test_regularization_loss_theta_descent',))
     return cs
 
 
@@ -409,6 +412,10 @@ def run_repo_model(case, ctx):
 
 
 def run_case(case, ctx):
+    if case.get('kind') == 'repo-suite':
+        from vf import suitewl
+        suitewl.run(case, ctx, ('c01.time_mask_contract',))
+        return
     if case['kind'] == 'sweep':
         run_sweep(case, ctx)
     elif case['kind'] == 'repo-model':
